@@ -336,7 +336,7 @@ func main() {
 	sort.Strings(suspects)
 
 	// ---- JSON copy
-	js, _ := json.MarshalIndent(map[string]interface{}{"gogo": gi, "pulsar": pi, "pulsar_only": onlyFacts, "gogo_only": gogoOnly, "msgs": facts, "suspect_fields": suspects}, "", " ")
+	js, _ := json.MarshalIndent(map[string]interface{}{"gogo": gi, "pulsar": pi, "pulsar_only": onlyFacts, "gogo_only": gogoOnly, "msgs": facts, "suspect_fields": suspects, "services": grpcFacts()}, "", " ")
 	os.MkdirAll("/verif/work", 0o755)
 	if err := os.WriteFile(outJSON, js, 0o644); err != nil {
 		panic(err)
@@ -384,6 +384,23 @@ func main() {
 			sb.WriteString(", ")
 		}
 		sb.WriteString(leanStr(f))
+	}
+	sb.WriteString("]\n\n")
+	// grpc service tables of both families
+	leanList := func(l []string) string {
+		var q []string
+		for _, x := range l {
+			q = append(q, leanStr(x))
+		}
+		return "[" + strings.Join(q, ", ") + "]"
+	}
+	sb.WriteString("structure SvcFact where\n  name : String\n  desc : List String\n  gogo : List String\n  pulsar : List String\n  deriving Repr\n\n")
+	sb.WriteString("/-- per service: methods in the file descriptor, in the modules/ family's grpc.ServiceDesc, in the api/ family's -/\ndef svcFacts : List SvcFact := [\n")
+	for i, f := range grpcFacts() {
+		if i > 0 {
+			sb.WriteString(",\n")
+		}
+		fmt.Fprintf(&sb, "  { name := %s, desc := %s, gogo := %s, pulsar := %s }", leanStr(f.Name), leanList(f.Desc), leanList(f.Gogo), leanList(f.Pulsar))
 	}
 	sb.WriteString("]\n\n")
 	sb.WriteString("/-- message-typed fields declared with a scalar gogoproto customtype -/\ndef suspectFields : List String := [")
